@@ -973,7 +973,177 @@ pub fn replay(rep: &Reporter, r: &Value) -> bool {
         "imagex-missing" => {
             check_missing_middle(rep, &seed, &st);
         }
+        "imagex-c15" => {
+            let cfg = crate::seqx::cfg_from_json(&r["open_cfg"]);
+            check_restart_cache(rep, &seed, r["cut"].as_u64().unwrap_or(0) as usize, &cfg, &st);
+        }
         _ => return false,
     }
     true
+}
+
+// ---------------------------------------------------------------------------
+// C15, restart dimension: cache accounting and the pinned-entries rule on a
+// store recovered from a clean or torn image (the open chunk may be a re-opened
+// one or a fresh one behind a truncated chunk)
+// ---------------------------------------------------------------------------
+
+fn c15_vio(rep: &Reporter, key: &str, what: String, seed: &Seed, cut: usize, cfg: &Cfg) -> Violation {
+    Violation {
+        prop: rep.prop.clone(),
+        key: key.to_string(),
+        what: format!("{} | newest chunk cut at {} of {} bytes, re-opened with cfg {} | seed [{}] cfg {}", what, cut, seed.files.last().unwrap().1.len(), cfg.short(), hist_short(&seed.hist), seed.cfg.short()),
+        replay: json!({"engine":"imagex-c15","seed": seed_json(seed), "cut": cut, "open_cfg": cfg_to_json(cfg)}),
+    }
+}
+
+/// One case. Returns false if the image could not be opened (judged by C10).
+pub fn check_restart_cache(rep: &Reporter, seed: &Seed, cut: usize, cfg: &Cfg, st: &ImgStats) -> bool {
+    use crate::seqx::check_cache;
+    use crate::seqx::check_cache_pinned;
+    let files = damaged(seed, &TailDamage::Cut(cut));
+    let dir = ScratchDir::new();
+    for (n, b) in &files {
+        std::fs::write(format!("{}/{}", dir.path, n), b).unwrap();
+    }
+    st.opens.fetch_add(1, Ordering::Relaxed);
+    let Ok(mut sut) = Sut::open_in(dir, *cfg) else {
+        st.outcome("not-opened");
+        return false;
+    };
+    // global offset of the live record of every entry the image holds
+    let mut offset_of: BTreeMap<LogId, u64> = BTreeMap::new();
+    for c in &seed.chunks {
+        for (i, r) in c.recs.iter().enumerate() {
+            if let MRec::Append(id, _) = r {
+                offset_of.insert(*id, c.rec_start(i));
+            }
+        }
+    }
+    let c0 = sut.cache();
+    if let Err(e) = check_cache(&c0) {
+        rep.report(c15_vio(rep, "cache-accounting-after-restart", format!("right after open: {}", e), seed, cut, cfg));
+        return true;
+    }
+    let state = sut.state();
+    let term = state.last.map(|l| l.0).unwrap_or(1);
+    let next = crate::model::next_index(state.last.as_ref());
+    let vt = state.vote.map(|v| v.0).unwrap_or(0) + 1;
+    let ops = vec![
+        Op::Vote((vt, 9)),
+        Op::Append(vec![((term, next), "r1".to_string())]),
+        Op::Append(vec![((term, next + 1), "restart-2".to_string())]),
+    ];
+    for op in &ops {
+        sut.rl().wait_worker_idle();
+        let before = sut.cache().boundary;
+        let r = sut.call(op);
+        sut.rl().wait_worker_idle();
+        let crate::sut::CallResult::Ok(seg) = &r else {
+            st.outcome("write-after-restart-refused");
+            return true; // C05/C10 judge usability
+        };
+        if let (Op::Append(es), Some(seg)) = (op, seg) {
+            offset_of.insert(es[0].0, seg.offset);
+        }
+        let c = sut.cache();
+        if let Err(e) = check_cache(&c) {
+            rep.report(c15_vio(rep, "cache-accounting-after-restart", format!("after {}: {}", op.short(), e), seed, cut, cfg));
+            return true;
+        }
+        if matches!(op, Op::Append(_)) {
+            let mut at_write = c.clone();
+            at_write.boundary = before;
+            if let Err(e) = check_cache_pinned(&at_write) {
+                rep.report(c15_vio(rep, "cache-over-limit-unpinned-after-restart", format!("after {}: {}", op.short(), e), seed, cut, cfg));
+                return true;
+            }
+        }
+    }
+    if sut.flush_wait().is_err() {
+        st.outcome("flush-after-restart-failed");
+        return true;
+    }
+    sut.rl().drain_cache_evictable();
+    let c = sut.cache();
+    if let Err(e) = check_cache(&c) {
+        rep.report(c15_vio(rep, "cache-accounting-after-restart", format!("after flush, idle and drain: {}", e), seed, cut, cfg));
+        return true;
+    }
+    // everything in closed chunks is written and synced now: only entries of the
+    // open chunk have to stay pinned
+    let open_start = sut.rl().stat().open_chunk.global_start;
+    for (id, _) in &c.resident {
+        if Some(*id) <= c.boundary {
+            rep.report(c15_vio(rep, "cache-drain-after-restart", format!("after idle + drain, resident {:?} is at or below the boundary {:?}", id, c.boundary), seed, cut, cfg));
+            return true;
+        }
+        if let Some(off) = offset_of.get(id) {
+            if *off < open_start {
+                rep.report(c15_vio(
+                    rep,
+                    "cache-keeps-entries-of-closed-synced-chunks-pinned",
+                    format!(
+                        "after a flush was acknowledged, the worker went idle and evictable entries were drained, {:?} (record at offset {}, in a closed chunk; the open chunk starts at {}) is still resident: boundary {:?}, resident {:?}",
+                        id, off, open_start, c.boundary, c.resident
+                    ),
+                    seed,
+                    cut,
+                    cfg,
+                ));
+                return true;
+            }
+        }
+    }
+    st.outcome("restart-cache-ok");
+    true
+}
+
+pub fn run_c15_restart(rep: &Reporter, thorough: bool) -> Value {
+    let seeds = gen_seeds(if thorough { 40 } else { 10 }, if thorough { 5 } else { 4 });
+    let st = ImgStats::new();
+    let caches: Vec<(Option<usize>, Option<usize>)> = vec![(Some(0), None), (Some(1), None), (None, Some(5))];
+    let mut work: Vec<(usize, usize, Cfg)> = vec![];
+    for (si, s) in seeds.iter().enumerate() {
+        let c = s.chunks.last().unwrap();
+        let len = s.files.last().unwrap().1.len();
+        let mut cuts = BTreeSet::new();
+        let mut b = 0usize;
+        cuts.insert(len);
+        for l in &c.lens {
+            b += *l as usize;
+            cuts.insert(b); // clean boundary
+            if b + 3 <= len {
+                cuts.insert(b + 3); // torn inside the next record
+            }
+        }
+        for cut in cuts {
+            for (items, cap) in &caches {
+                // recovery under the seed's chunk limits and under the defaults (the
+                // newest chunk then has room and is re-opened when healthy)
+                work.push((si, cut, s.cfg.with_cache(*items, *cap)));
+                work.push((si, cut, Cfg::default().with_cache(*items, *cap)));
+            }
+        }
+    }
+    let idx = AtomicUsize::new(0);
+    let threads = 2 * std::thread::available_parallelism().map(|n| n.get()).unwrap_or(8);
+    std::thread::scope(|sc| {
+        for _ in 0..threads {
+            sc.spawn(|| loop {
+                let i = idx.fetch_add(1, Ordering::Relaxed);
+                if i >= work.len() {
+                    break;
+                }
+                let (si, cut, cfg) = &work[i];
+                check_restart_cache(rep, &seeds[*si], *cut, cfg, &st);
+            });
+        }
+    });
+    json!({
+        "restart_cases": work.len(),
+        "seed_images": seeds.len(),
+        "outcomes": *st.outcomes.lock().unwrap(),
+        "explanation": "restart dimension: every seed image with its newest chunk cut at every record boundary (clean restart) and 3 bytes into every record (torn tail) is re-opened under {0 items, 1 item, 5 bytes} x {the seed's chunk limits, default limits}; after open, after a vote and two appends, and after flush + idle + drain the counters must equal the resident set; over-limit states may hold only entries above the boundary in force; after flush + idle + drain no entry whose record lies in a closed chunk may be resident",
+    })
 }
